@@ -136,6 +136,200 @@ fn report_failure(args: &Args, rep: &mut Report, ast: &OpeningHoursExpression, h
     rep.violation("schedule_differs_from_semantics", format!("{text:?} [{}]: {what}", hol.to_string()), json!({"expr": text, "holidays": hol.to_string(), "day": day.to_string()}), known);
 }
 
+/// Parameter x year grids: every value of a selector parameter, each in its own one-rule
+/// expression, compared with the model on the days around its boundaries in every year covered by
+/// EVERY year 1900..9999 (both tiers). A slip that needs one specific parameter value, or a calendar coincidence
+/// between the parameter and the year, cannot hide from it.
+fn grids(args: &Args, rep: &mut Report) {
+    use chrono::Weekday;
+    let thorough = args.thorough();
+    let of = args.of.max(1);
+    let years: Vec<i32> = (1900..=9999).collect();
+    let few_years: Vec<i32> = (1900..=1905).chain(1995..=2005).chain(2095..=2105).chain(2396..=2404).chain(9990..=9999).collect();
+    let months = ["Jan", "Feb", "Mar", "Apr", "May", "Jun", "Jul", "Aug", "Sep", "Oct", "Nov", "Dec"];
+    let wds = ["Mo", "Tu", "We", "Th", "Fr", "Sa", "Su"];
+    let wd_of = [Weekday::Mon, Weekday::Tue, Weekday::Wed, Weekday::Thu, Weekday::Fri, Weekday::Sat, Weekday::Sun];
+    let mut idx = 0u64;
+    let mut full = false;
+    // (expression text, family, days)
+    let mut one = |text: String, family: &str, mut days: Vec<NaiveDate>, rep: &mut Report| {
+        idx += 1;
+        if full || (idx - 1) % of != args.worker {
+            return;
+        }
+        let Ok(ast) = lib_parse(&text) else {
+            rep.count("grid_skipped_parser_rejects");
+            return;
+        };
+        let Ok(Ok(oh)) = guarded(|| OpeningHours::parse(&text)) else { return };
+        days.retain(|d| dates::in_range(*d) && *d != dates::min_day());
+        days.sort();
+        days.dedup();
+        rep.evaluations += 1;
+        rep.add("grid_days", days.len() as u64);
+        rep.count(&format!("grid.{family}"));
+        match compare(&ast, &oh, &HolSpec::None, &days, false, None) {
+            Err(a) => rep.count(&format!("grid_abstained.{}", a.0.replace(' ', "_"))),
+            Ok(None) => rep.count("grid_expressions_passed"),
+            Ok(Some(mm)) => {
+                report_failure(args, rep, &ast, &HolSpec::None, &mm);
+                full = rep.full();
+            }
+        }
+    };
+    let around = |d: NaiveDate, before: i64, after: i64| -> Vec<NaiveDate> { (-before..=after).map(|k| d + Duration::days(k)).collect() };
+    // 1. every ISO week number
+    for n in 1..=53u32 {
+        let mut days = Vec::new();
+        for &y in &years {
+            match NaiveDate::from_isoywd_opt(y, n, Weekday::Mon) {
+                Some(mon) if mon.iso_week().week() == n => days.extend(around(mon, 1, 7)),
+                _ => days.extend(around(dates::ymd(y, 12, 31), 4, 4)),
+            }
+        }
+        one(format!("week {n:02}"), "week", days, rep);
+    }
+    // 2. every day of the year, alone
+    for (mi, m) in months.iter().enumerate() {
+        for d in 1..=model::days_in_month(2024, mi as u32 + 1) {
+            let mut days = Vec::new();
+            for &y in &years {
+                match NaiveDate::from_ymd_opt(y, mi as u32 + 1, d) {
+                    Some(x) => days.extend(around(x, 1, 1)),
+                    None => days.extend(around(dates::ymd(y, 2, 28), 0, 1)),
+                }
+            }
+            one(format!("{m} {d:02}"), "monthday", days, rep);
+        }
+    }
+    // 3. every month alone (every year), every pair of months (fewer years)
+    for (i, a) in months.iter().enumerate() {
+        let mut days = Vec::new();
+        for &y in &years {
+            days.extend(around(dates::ymd(y, i as u32 + 1, 1), 1, 0));
+            days.extend(around(dates::ymd(y, i as u32 + 1, model::days_in_month(y, i as u32 + 1)), 0, 1));
+        }
+        one(a.to_string(), "month", days, rep);
+        for (j, b) in months.iter().enumerate() {
+            if i == j {
+                continue;
+            }
+            let mut days = Vec::new();
+            for &y in &few_years {
+                for m in [i, j] {
+                    days.extend(around(dates::ymd(y, m as u32 + 1, 1), 1, 0));
+                    days.extend(around(dates::ymd(y, m as u32 + 1, model::days_in_month(y, m as u32 + 1)), 0, 1));
+                }
+            }
+            one(format!("{a}-{b}"), "month_pair", days, rep);
+        }
+    }
+    // 4. every year: alone, open-ended, and as both ends of a stepped range
+    for y in 1900..=9999i32 {
+        let days = vec![dates::ymd(y, 1, 1), dates::ymd(y, 12, 31), dates::ymd(y, 7, 1 + (y as u32 % 28)), dates::ymd(y, 1, 1) - Duration::days(1), dates::ymd(y, 12, 31) + Duration::days(1)];
+        one(format!("{y}"), "year", days.clone(), rep);
+        {
+            one(format!("{y}+"), "year_open", days.clone(), rep);
+            if y >= 1903 {
+                let mut d2 = days.clone();
+                d2.extend([dates::ymd(y - 3, 1, 1), dates::ymd(y - 2, 6, 1), dates::ymd(y - 1, 12, 31), dates::ymd(y - 3, 1, 1) - Duration::days(1)]);
+                one(format!("{}-{y}/3", y - 3), "year_step", d2, rep);
+            }
+        }
+    }
+    // 5. every nth weekday: the matching day, its weekday neighbours and the days next to it
+    for (wi, wd) in wds.iter().enumerate() {
+        for n in [1i32, 2, 3, 4, 5, -1, -2, -3, -4, -5] {
+            let mut days = Vec::new();
+            for &y in &years {
+                for m in [2u32, 1 + (y as u32 % 12), 1 + ((y as u32 + 5) % 12)] {
+                    let dim = model::days_in_month(y, m);
+                    let hits: Vec<NaiveDate> = (1..=dim).map(|d| dates::ymd(y, m, d)).filter(|d| d.weekday() == wd_of[wi]).collect();
+                    days.extend(hits.iter().copied());
+                    let k = if n > 0 { n as usize - 1 } else { (hits.len() as i32 + n).max(0) as usize };
+                    if let Some(h) = hits.get(k) {
+                        days.extend(around(*h, 1, 1));
+                    }
+                }
+            }
+            one(format!("{wd}[{n}]"), "nth_weekday", days, rep);
+        }
+    }
+    // 6. weekday offsets of dates
+    for (wi, wd) in wds.iter().enumerate() {
+        let _ = wi;
+        for sign in ['+', '-'] {
+            for (m, d) in [("Jan", 1u32), ("Feb", 28), ("Mar", 1), ("Jul", 14), ("Dec", 25), ("Dec", 31)] {
+                let mi = months.iter().position(|x| *x == m).unwrap() as u32 + 1;
+                let mut days = Vec::new();
+                for &y in &years {
+                    days.extend(around(dates::ymd(y, mi, d), 8, 8));
+                }
+                one(format!("{m} {d:02}{sign}{wd}"), "date_weekday_offset", days, rep);
+            }
+        }
+    }
+    // 7. day offsets of dates and of Easter
+    for n in (-400..=400i64).filter(|n| *n != 0) {
+        let unit = if n.abs() == 1 { "day" } else { "days" };
+        let sign = if n < 0 { '-' } else { '+' };
+        for (m, d) in [("Feb", 28u32), ("Dec", 31), ("Jan", 1), ("Mar", 1)] {
+            let mi = months.iter().position(|x| *x == m).unwrap() as u32 + 1;
+            let mut days = Vec::new();
+            for &y in &few_years {
+                days.extend(around(dates::ymd(y, mi, d) + Duration::days(n), 1, 1));
+                days.push(dates::ymd(y, mi, d));
+            }
+            one(format!("{m} {d:02} {sign}{} {unit}", n.abs()), "date_day_offset", days, rep);
+        }
+        if n.abs() <= 60 {
+            let mut days = Vec::new();
+            for &y in &years {
+                days.extend(around(model::easter(y) + Duration::days(n), 1, 1));
+            }
+            one(format!("easter {sign}{} {unit}", n.abs()), "easter_offset", days, rep);
+        }
+    }
+    // 8. clock times: every start minute, every end minute up to 48:00, open ends, event offsets
+    let two_days = vec![dates::ymd(2024, 3, 9), dates::ymd(2024, 3, 10), dates::ymd(2024, 3, 11)];
+    let hm = |m: u32| format!("{:02}:{:02}", m / 60, m % 60);
+    for s in 0..1440u32 {
+        one(format!("{}-{}", hm(s), hm(s + 61)), "time_start", two_days.clone(), rep);
+        one(format!("{}+", hm(s)), "time_open_end", two_days.clone(), rep);
+    }
+    for e in 1..=2880u32 {
+        let s = if e <= 1440 { 0 } else { (e - 1440 + 30).min(1439) };
+        one(format!("{}-{}", hm(s), hm(e)), "time_end", two_days.clone(), rep);
+    }
+    for ev in ["dawn", "sunrise", "sunset", "dusk"] {
+        for off in -1440..=1440i32 {
+            let t = if off == 0 { ev.to_string() } else { format!("({ev}{}{})", if off < 0 { '-' } else { '+' }, hm(off.unsigned_abs())) };
+            let text = if off % 2 == 0 { format!("{t}-26:30") } else { format!("00:30-{t}") };
+            one(text, "event_offset", two_days.clone(), rep);
+        }
+    }
+    // 9. pairs of clock minutes: thorough = EVERY (start, length) with start in 00:00..23:59 and
+    //    length 1..1439 minutes (2.07 million expressions); quick = 100 000 pairs on coprime strides
+    if thorough {
+        for s in 0..1440u32 {
+            for len in 1..=1439u32 {
+                one(format!("{}-{}", hm(s), hm(s + len)), "time_pair", vec![two_days[0], two_days[1]], rep);
+            }
+        }
+    } else {
+        let mut s = (args.seed % 1440) as u32;
+        let mut len = 1 + (args.seed % 1439) as u32;
+        for _ in 0..100_000u32 {
+            one(format!("{}-{}", hm(s), hm(s + len)), "time_pair", vec![two_days[0], two_days[1]], rep);
+            s = (s + 7) % 1440;
+            len = 1 + (len + 11) % 1439;
+        }
+    }
+    if args.worker == 0 {
+        rep.add("grid_years_covered", years.len() as u64);
+    }
+}
+
 pub fn run(args: &Args, rep: &mut Report) {
     let n = args.cases(200_000, 400_000);
     let (targeted, random, sweep) = if args.thorough() { (300, 200, 400) } else { (64, 48, 0) };
@@ -247,6 +441,12 @@ pub fn run(args: &Args, rep: &mut Report) {
                 Ok(None) => rep.count("calendar_sweeps_passed"),
                 Ok(Some(mm)) => rep.violation("schedule_differs_from_semantics", format!("{text:?} [none] (exhaustive sweep over every year 1900..9999): {}", mm.what), json!({"expr": text, "holidays": "none", "day": mm.day.to_string()}), None),
             }
+        }
+    }
+    if !args.extra.iter().any(|e| e == "nogrid") {
+        grids(args, rep);
+        if rep.full() {
+            return;
         }
     }
     // real-world shapes: sample file and test-source literals, model fed with the parsed AST
